@@ -35,6 +35,8 @@ const BASE_DELAY_MS: u64 = 5;
 struct Link {
     up: bool,
     delay_ms: u64,
+    /// only the mempool connections (kind 2) of this directed link are cut; consensus traffic flows
+    mp_cut: bool,
 }
 
 type Links = Arc<Mutex<Vec<Vec<Link>>>>;
@@ -55,15 +57,17 @@ async fn pump(
     links: Links,
     a: usize,
     b: usize,
+    kind: u16,
 ) {
+    let down = |l: Link| !l.up || (kind == 2 && l.mp_cut);
     while let Some(Ok(frame)) = from.next().await {
         let l = links.lock().unwrap()[a][b];
-        if !l.up {
+        if down(l) {
             return;
         }
         if l.delay_ms > 0 {
             tokio::time::sleep(Duration::from_millis(l.delay_ms)).await;
-            if !links.lock().unwrap()[a][b].up {
+            if down(links.lock().unwrap()[a][b]) {
                 return;
             }
         }
@@ -82,7 +86,8 @@ async fn spawn_proxy(base: u16, i: usize, j: usize, kind: u16, links: Links, hel
                 Ok(x) => x,
                 Err(_) => return,
             };
-            if !links.lock().unwrap()[i][j].up {
+            let l = links.lock().unwrap()[i][j];
+            if !l.up || (kind == 2 && l.mp_cut) {
                 // partition: the connection hangs (no answer, no reset) until the link heals; closing
                 // it at once would make the reliable sender reconnect in a zero-delay loop
                 held.lock().unwrap().entry((i, j)).or_default().push(inbound);
@@ -100,8 +105,8 @@ async fn spawn_proxy(base: u16, i: usize, j: usize, kind: u16, links: Links, hel
             // when either direction stops (link cut or peer closed) both halves are dropped
             tokio::spawn(async move {
                 tokio::select! {
-                    _ = pump(in_r, out_w, l1, i, j) => (),
-                    _ = pump(out_r, in_w, l2, i, j) => (),
+                    _ = pump(in_r, out_w, l1, i, j, kind) => (),
+                    _ = pump(out_r, in_w, l2, i, j, kind) => (),
                 }
             });
         }
@@ -131,7 +136,7 @@ impl Net {
         let mut rng = StdRng::from_seed(sb);
         let mut keys: Vec<_> = (0..n).map(|_| generate_keypair(&mut rng)).collect();
         keys.sort_by(|a, b| a.0.cmp(&b.0));
-        let links: Links = Arc::new(Mutex::new(vec![vec![Link { up: true, delay_ms: BASE_DELAY_MS }; n]; n]));
+        let links: Links = Arc::new(Mutex::new(vec![vec![Link { up: true, delay_ms: BASE_DELAY_MS, mp_cut: false }; n]; n]));
         let held: Held = Arc::new(Mutex::new(std::collections::HashMap::new()));
         let dir = format!("/verif/work/net_{}_{}", std::process::id(), seed);
         let _ = std::fs::remove_dir_all(&dir);
@@ -192,9 +197,21 @@ impl Net {
     }
 
     pub fn set_link(&self, a: usize, b: usize, up: bool, delay_ms: u64) {
-        self.links.lock().unwrap()[a][b] = Link { up, delay_ms };
+        {
+            let mut g = self.links.lock().unwrap();
+            let mp_cut = g[a][b].mp_cut;
+            g[a][b] = Link { up, delay_ms, mp_cut };
+        }
         if up {
             // reset the connections that hung during the partition: the senders reconnect
+            self.held.lock().unwrap().remove(&(a, b));
+        }
+    }
+    /// Cut / heal only the mempool connections from `a` to `b` (batch broadcasts, batch requests);
+    /// consensus messages keep flowing, so no view change is provoked.
+    pub fn cut_mempool(&self, a: usize, b: usize, cut: bool) {
+        self.links.lock().unwrap()[a][b].mp_cut = cut;
+        if !cut {
             self.held.lock().unwrap().remove(&(a, b));
         }
     }
@@ -499,14 +516,19 @@ fn scenario_e2e(seed: u64, rep: &mut Report) {
             tx[0] = 1; // not a benchmark sample transaction
             tx[1..9].copy_from_slice(&(seed * 1000 + k as u64).to_be_bytes());
             if cut {
-                // only the mempool link src -> deaf is cut (kind 2 shares the link table with kind 0,
-                // so cut it just around the send)
-                net.set_link(src, deaf, false, BASE_DELAY_MS);
+                // only the mempool link src -> deaf is cut: the property speaks about a period without
+                // faults or view changes, so consensus traffic must not be disturbed (a proposal that is
+                // orphaned by a view change takes its payload with it: `cleanup_proposer` runs when a
+                // block is processed, not when it commits — see DESIGN 0.7)
+                net.cut_mempool(src, deaf, true);
+            }
+            if std::env::var("HS_LOG").is_ok() {
+                eprintln!("[HARNESS] tx {} ({} bytes) -> node {} (deaf={} src={} cut={})", k, tx.len(), to, deaf, src, cut);
             }
             net.send_tx(to, tx.clone()).await;
             net.run_for(120).await;
             if cut {
-                net.set_link(src, deaf, true, BASE_DELAY_MS);
+                net.cut_mempool(src, deaf, false);
             }
             txs.push(tx);
             net.run_for(rng.gen_range(0, 200)).await;
@@ -546,7 +568,17 @@ fn scenario_e2e(seed: u64, rep: &mut Report) {
                     _ => rep.finding("impl_vs_property", "C13:committed-batch-not-readable", format!("node {} committed a block referencing a batch that is not in its store", i), replay.clone()),
                 }
             }
+            // the clause is about a period without faults or view changes: a round missing from the
+            // commit sequence means a view change happened; then only the safety clauses above apply
+            let rounds: Vec<u64> = logs[i].iter().map(|b| b.round).collect();
+            let view_change = rounds.windows(2).any(|w| w[1] != w[0] + 1);
+            if view_change {
+                rep.hit("e2e.view-change-in-period");
+            }
             for k in 0..txs.len() {
+                if view_change {
+                    break;
+                }
                 if !found.contains(&k) {
                     rep.finding("impl_vs_property", "C13:transaction-not-committed", format!("n={} transaction {} (of {}) is not in any batch referenced by node {}'s committed blocks 12 timeouts after submission (deaf={} src={} cut={}; committed rounds {:?})", n, k, txs.len(), i, deaf, src, cut, logs[i].iter().map(|b| b.round).collect::<Vec<_>>()), replay.clone());
                     break;
